@@ -27,9 +27,18 @@ import (
 //
 // Job functions wait until the harness lets them return ("finish"); the generator keeps a copy of
 // the pool (jobs start in acceptance order as workers are free) and only finishes running jobs.
+//
+// "watch" / "poll-held": the client fetches a group's channel with NotifyResult and KEEPS it, as the
+// reader goroutine of RunJobs does while it sleeps (it asks for the channel again only after a
+// wake-up); "poll-held" is a non-blocking receive on the kept channel object.  As long as the group
+// itself was not removed, a result stored for it must arrive there — with 3 groups registered on the
+// worker group or with 300 (Props/C14.lean watcher_woken, remove_touches_own_group_only); one call
+// of Results hands out everything stored, 3 results or 3000 (results_takes_all).  VOLUME cases
+// (c14GenDirectVolume): crowds of groups with waiting readers while other groups finish and are
+// removed; hundreds or thousands of results of one group under one token.
 
 type c14Op struct {
-	Op string `json:"op"` // submit | submit-cancelled | finish | remove | results | poll | q-add | q-pop | q-len
+	Op string `json:"op"` // submit | submit-cancelled | finish | remove | results | poll | q-add | q-pop | q-len | watch | poll-held
 	G  int    `json:"g"`  // group
 	V  int    `json:"v"`  // job id (>= 1; the job's result)
 	Vs []int  `json:"vs,omitempty"`
@@ -65,6 +74,7 @@ func c14RunDirect(t *testing.T, in c14Input) (impl c14Impl) {
 		cancel()
 		release := map[int]chan struct{}{}
 		released := map[int]bool{}
+		held := map[int]<-chan struct{}{}
 		var running, maxRunning atomic.Int64
 		outs := make([]c14Out, 0, len(in.Ops))
 		for _, op := range in.Ops {
@@ -122,6 +132,19 @@ func c14RunDirect(t *testing.T, in c14Input) (impl c14Impl) {
 				case <-grp.NotifyResult(op.G):
 					o.B = true
 				default:
+				}
+				outs = append(outs, o)
+			case "watch":
+				held[op.G] = grp.NotifyResult(op.G)
+				outs = append(outs, c14Out{K: "unit"})
+			case "poll-held":
+				o := c14Out{K: "token"}
+				if ch, ok := held[op.G]; ok {
+					select {
+					case <-ch:
+						o.B = true
+					default:
+					}
 				}
 				outs = append(outs, o)
 			case "q-add":
@@ -189,6 +212,13 @@ func c14DirectEdge() []c14Input {
 		mk(1, res(9), poll(9), c14Op{Op: "submit-cancelled", G: 4}, res(4), poll(4)),
 		// several results under one token
 		mk(3, sub(1, 1), sub(1, 2), sub(1, 3), fin(1, 2), fin(1, 1), fin(1, 3), poll(1), poll(1), res(1), res(1)),
+		// a kept channel: woken by a result of its group although other groups were removed meanwhile;
+		// dead once its own group was removed (the late result goes to a new channel)
+		mk(3, sub(1, 1), sub(2, 2), sub(3, 3), c14Op{Op: "watch", G: 2}, fin(1, 1), res(1), rem(1), rem(3), rem(4),
+			fin(2, 2), c14Op{Op: "poll-held", G: 2}, c14Op{Op: "poll-held", G: 2}, res(2)),
+		mk(1, sub(7, 1), c14Op{Op: "watch", G: 7}, rem(7), fin(7, 1), c14Op{Op: "poll-held", G: 7}, poll(7), res(7),
+			c14Op{Op: "poll-held", G: 9}),
+		mk(1, sub(7, 1), fin(7, 1), c14Op{Op: "watch", G: 7}, rem(7), c14Op{Op: "poll-held", G: 7}, c14Op{Op: "poll-held", G: 7}, poll(7)),
 		// Queue: Pop on the empty queue (fresh, and emptied), FIFO order, Len
 		mk(1, c14Op{Op: "q-pop"}, c14Op{Op: "q-len"}, c14Op{Op: "q-add", Vs: []int{4, 5, 6}}, c14Op{Op: "q-len"},
 			c14Op{Op: "q-pop"}, c14Op{Op: "q-pop"}, c14Op{Op: "q-add", Vs: []int{7}}, c14Op{Op: "q-pop"}, c14Op{Op: "q-pop"},
@@ -269,6 +299,114 @@ func c14GenDirect(r *Rng) c14Input {
 	}
 	for ; qlen >= 0; qlen-- {
 		in.Ops = append(in.Ops, c14Op{Op: "q-pop"}) // down to (and including) the Pop on the empty queue
+	}
+	return in
+}
+
+// c14GenDirectVolume: the two VOLUME shapes at the level of the group's own API.
+//   crowd: 65 … several hundred groups, one or two jobs each, on a few workers; the client fetches and
+//     keeps the channel of every group (a parked reader per group); jobs finish one after the other, a
+//     finished group is collected (poll-held, results) and REMOVED while the others still wait; every
+//     group must be woken on the channel it kept.
+//   long list: one or two groups with 257 … several thousand jobs; all finish before the client looks;
+//     ONE token, ONE call of Results must hand out all of them, oldest first.
+func c14GenDirectVolume(r *Rng, i, scale int) c14Input {
+	in := c14Input{Via: "direct", Mode: "none", JobKind: "hold"}
+	op := func(o string, g, v int) { in.Ops = append(in.Ops, c14Op{Op: o, G: g, V: v}) }
+	type job struct{ g, v int }
+	var running, queued []job
+	next := 1
+	submit := func(g int) {
+		j := job{g, next}
+		next++
+		op("submit", g, j.v)
+		if len(running) < in.Workers {
+			running = append(running, j)
+		} else {
+			queued = append(queued, j)
+		}
+	}
+	finish := func(k int) job {
+		j := running[k]
+		running = append(running[:k], running[k+1:]...)
+		op("finish", j.g, j.v)
+		if len(queued) > 0 {
+			running = append(running, queued[0])
+			queued = queued[1:]
+		}
+		return j
+	}
+	if i%2 == 0 {
+		in.Workers = []int{1, 2, 4, 8, 64}[r.Intn(5)]
+		groups := r.Range(65, 80+60*scale)
+		left := map[int]int{}
+		watchFirst := r.Chance(70)
+		for g := 1; g <= groups; g++ {
+			n := 1
+			if r.Chance(20) {
+				n = 2
+			}
+			if watchFirst && r.Chance(85) {
+				op("watch", g, 0)
+			}
+			for k := 0; k < n; k++ {
+				submit(g)
+			}
+			left[g] = n
+		}
+		if !watchFirst {
+			for g := 1; g <= groups; g++ {
+				if r.Chance(85) {
+					op("watch", g, 0)
+				}
+			}
+		}
+		for len(running) > 0 {
+			j := finish(r.Intn(len(running)))
+			left[j.g]--
+			if r.Chance(80) {
+				op("poll-held", j.g, 0)
+				op("results", j.g, 0)
+			}
+			if left[j.g] == 0 && r.Chance(85) {
+				op("remove", j.g, 0) // the finished group leaves while most others are waiting
+			}
+			if r.Chance(10) {
+				op("poll-held", 1+r.Intn(groups), 0) // a waiting (or finished) reader looks at its channel
+			}
+		}
+		for g := 1; g <= groups; g++ {
+			op("poll-held", g, 0)
+			op("poll", g, 0)
+			op("results", g, 0)
+		}
+	} else {
+		in.Workers = []int{1, 2, 8, 64}[r.Intn(4)]
+		groups := []int{1, 1, 2}[r.Intn(3)]
+		per := []int{257, 300, 512, 513, r.Range(257, 700), r.Range(700, 700+600*scale)}[r.Intn(6)]
+		for g := 1; g <= groups; g++ {
+			op("watch", g, 0)
+		}
+		for k := 0; k < per; k++ {
+			for g := 1; g <= groups; g++ {
+				submit(g)
+			}
+			// (some results are collected early, in small batches: the long list is what remains)
+			if r.Chance(2) && len(running) > 0 {
+				j := finish(0)
+				op("poll-held", j.g, 0)
+				op("results", j.g, 0)
+			}
+		}
+		for len(running) > 0 {
+			finish(r.Intn(len(running)))
+		}
+		for g := 1; g <= groups; g++ {
+			op("poll-held", g, 0)
+			op("results", g, 0)
+			op("poll-held", g, 0)
+			op("results", g, 0)
+		}
 	}
 	return in
 }
